@@ -251,6 +251,25 @@ static void probe(struct ctx *c, int hi)
         if (off < 0 && len == -1) indom = indom && true;
         int64_t want = len == -1 ? (int64_t)h->n - noff : len;
         if (len < -1 || len > MAXSZ + 64) break;   /* destination buffer contract: caller provides size octets */
+        /* the caller's buffer holds `want` octets: what lies behind them must not be written (canary) */
+        size_t guard_at = indom && want >= 0 ? (size_t)want : sizeof(buf) - 32;
+        for (size_t g = 0; g < 32 && guard_at + g < sizeof(buf); g++) buf[guard_at + g] = (uint8_t)(0xc5 ^ g);
+#define C03_GUARD_OK() ({ bool ok_ = true; for (size_t g = 0; g < 32 && guard_at + g < sizeof(buf); g++) if (buf[guard_at + g] != (uint8_t)(0xc5 ^ g)) ok_ = false; ok_; })
+        if (indom && want >= 0 && !c->ret) {
+            /* the same range as a scatter list: as many octets as asked, in order */
+            int cnt = ubuf_block_iovec_count(h->u, off, len);
+            if (cnt < 0) { if (want > 0) FAIL("C03/domain/iovec", "iovec_count(%lld,%lld) inside %zu octets fails", (long long)off, (long long)len, h->n); }
+            else if (cnt <= 64) {
+                struct iovec iov[65];
+                if (cnt > 0 && ubase_check(ubuf_block_iovec_read(h->u, off, len, iov))) {
+                    size_t tot = 0; bool same = true;
+                    for (int i = 0; i < cnt; i++) { if (tot + iov[i].iov_len <= (size_t)want && !model_eq(h, noff + tot, iov[i].iov_base, iov[i].iov_len, &bad)) same = false; tot += iov[i].iov_len; }
+                    if (tot != (size_t)want || !same) FAIL("C03/content/iovec", "iovec(%lld,%lld) on %zu octets: %d vectors covering %zu octets, the range holds %lld%s", (long long)off, (long long)len, h->n, cnt, tot, (long long)want, same ? "" : " (content differs)");
+                    ubuf_block_iovec_unmap(h->u, off, len, iov);
+                } else if (cnt > 0) FAIL("C03/domain/iovec", "iovec_read(%lld,%lld) inside %zu octets fails", (long long)off, (long long)len, h->n);
+                else if (want > 0) FAIL("C03/content/iovec", "iovec_count(%lld,%lld) on %zu octets is 0, the range holds %lld octets", (long long)off, (long long)len, h->n, (long long)want);
+            }
+        }
         if (kind == 2) {
             R("    probe extract(%lld,%lld)", (long long)off, (long long)len);
             int err = ubuf_block_extract(h->u, off, len, buf);
@@ -258,6 +277,7 @@ static void probe(struct ctx *c, int hi)
             if (indom) {
                 if (!ubase_check(err)) FAIL("C03/domain/extract", "extract(%lld,%lld) inside %zu octets fails", (long long)off, (long long)len, h->n);
                 else if (!model_eq(h, noff, buf, want, &bad)) FAIL("C03/content/extract", "extract(%lld,%lld): octet %zu is %02x, model %02x", (long long)off, (long long)len, bad, buf[bad - noff], h->m[bad]);
+                else if (!C03_GUARD_OK()) FAIL("C03/content/extract", "extract(%lld,%lld) on %zu octets wrote beyond the %lld octets of the range into the caller's buffer", (long long)off, (long long)len, h->n, (long long)want);
             } else if (!ubase_check(err)) c->errpath = true;
         } else {
             if (indom && (size_t)noff >= h->n) break; /* peek at offset == size: may fail */
@@ -267,6 +287,7 @@ static void probe(struct ctx *c, int hi)
             if (indom) {
                 if (!p) FAIL("C03/domain/peek", "peek(%lld,%lld) inside %zu octets fails", (long long)off, (long long)len, h->n);
                 else if (!model_eq(h, noff, p, want, &bad)) FAIL("C03/content/peek", "peek(%lld,%lld): octet %zu is %02x, model %02x", (long long)off, (long long)len, bad, p[bad - noff], h->m[bad]);
+                else if (!C03_GUARD_OK()) FAIL("C03/content/peek", "peek(%lld,%lld) on %zu octets wrote beyond the %lld octets of the range into the caller's buffer", (long long)off, (long long)len, h->n, (long long)want);
                 if (p == buf) c->cross = true;
             } else if (!p) c->errpath = true;
             if (p) ubuf_block_peek_unmap(h->u, off, buf, p);
